@@ -309,6 +309,12 @@ COMPARATOR_TO_OPERATOR = {
 _NEG_OPERATOR_TO_AST = {
     neg_op: node_cls for node_cls, (_, neg_op, _) in COMPARATOR_TO_OPERATOR.items()
 }
+_SWAPPED_COMPARATORS = {
+    ast.Lt: ast.Gt,
+    ast.LtE: ast.GtE,
+    ast.Gt: ast.Lt,
+    ast.GtE: ast.LtE,
+}
 AST_TO_REVERSE = {
     node_cls: _NEG_OPERATOR_TO_AST[op]
     for node_cls, (op, _, _) in COMPARATOR_TO_OPERATOR.items()
@@ -3560,8 +3566,10 @@ class NameCheckVisitor(node_visitor.ReplacingNodeVisitor):
         elif isinstance(rhs_constraint, PredicateProvider) and isinstance(
             lhs, KnownValue
         ):
+            # The provider is the right operand: "1 < len(x)" means "len(x) > 1".
+            swapped = _SWAPPED_COMPARATORS.get(type(op))
             constraint = self._constraint_from_predicate_provider(
-                rhs_constraint, lhs.val, op
+                rhs_constraint, lhs.val, swapped() if swapped is not None else op
             )
         elif isinstance(rhs, KnownValue):
             constraint = self._constraint_from_compare_op(
